@@ -799,7 +799,11 @@ func (s *Scenario) Judge(o *Obs) []Problem {
 	}
 	for p, n := range seenPath {
 		if n > 1 {
-			add("duplicate-import", "C04", "path %q imported %d times", p, n)
+			props := "C04"
+			if s.IsDot(p) {
+				props = "C04,C06" // a declared dot-import gives exactly one `. "path"` spec
+			}
+			add("duplicate-import", props, "path %q imported %d times", p, n)
 		}
 	}
 	for i, pi := range s.Paths {
